@@ -61,6 +61,7 @@ public:
 
   void xml(tinyxml2::XMLDocument *) const;
   environment &init();
+  environment &reconcile(const environment &);
 
   // Serialization
   //bool load(std::istream &) {}
